@@ -168,6 +168,18 @@ add("C13", "restart-sim", "exploration",
     "Trusted: equality is judged on exported input-base parameters; bit flips are not injected because neither format carries a checksum "
     "over names and numbers.", "DESIGN.md section 4, C13")
 
+add("C08", "lifecycle-sim", "exploration",
+    "deterministic simulation: seeded eig / alter / sweep / flat-TDS / snapshot / reset histories; every eigenvalue result compared with a freshly built twin; output invariants, dense state-matrix recomputation and pencil reference on every call",
+    "Partial claim: the history clause (state matrix of the current operating point after any history, including parameter sweeps). After "
+    "seeded histories of EIG.run, Model.alter of time constants / damping, EIG.sweep over them, flat simulated segments, snapshot save/load "
+    "and reset, every reported spectrum must equal (as a multiset, 2e-4) that of a fresh System given the same data before its power flow. "
+    "Monitored on every call because it is free: counts partition the eigenvalues, participation factors are non-negative with unit sums per "
+    "mode, EIG.As equals numpy's dense T^-1(fx - fy gy^-1 gx) from freshly updated Jacobians and an independently rebuilt mass matrix, and the "
+    "spectrum equals scipy's finite generalised eigenvalues of the pencil (also with zero time constants).",
+    "Trusted: only parameters that do not move the equilibrium and do not feed initialisation-time constants are altered/swept; cases with a "
+    "singular algebraic block (undetermined zero-time-constant states) and non-equilibrium starts count as precondition unmet.",
+    "DESIGN.md section 4, C08")
+
 ENGINES = [
     {"name": "tds-sim", "path": "dst/tdssim.py", "kind_free_text": "real TDS loop under StepTap/SolverTap/TimerTap/StoreTap/ConnTap "
      "seams with seeded plans (events, segments, restarts, solver/disk/clock faults, crash points)", "serves_properties": []},
